@@ -567,3 +567,384 @@ Proof.
   pose proof (VB_ends _ _ ta Hr _ _ _ _ (le_n _) V) as H. unfold E in HE. rewrite Hs in HE. rewrite H in HE. discriminate HE.
 Qed.
 End WalkMachine3.
+
+(* ------------------------------------------------------------------------------------------ *)
+(* Part C: the request parser conserves the structure walk                                      *)
+(* ------------------------------------------------------------------------------------------ *)
+Section WalkRequest3.
+Variable norm : bytes -> bytes.
+Variable maxc : N.
+(* g: the segment of the next request has been opened *)
+Variable g : bool.
+
+Definition rvm (s : state) : vmode :=
+  match s with
+  | Header | HeaderSkip _ _ | HeaderValues _ _ _ => if g then MB else MI
+  | Params i _ _ | ParamsSkip i _ _ | ParamsValues i _ _ _ => MP (r_id (ireq i)) (r_role (ireq i))
+  | DoneSkip r _ _ | Done r => done_mode (r_id r) (r_role r)
+  | Fatal _ => MI
+  end.
+
+Definition VS (s : state) (w : bytes) : bool := VB (rvm s) (sprem s) (spad s) w.
+
+Definition PV (s : state) (vm : vmode) (p q : N) : Prop := rvm s = vm /\ sprem s = p /\ spad s = q /\ is_fatal s = false.
+
+Lemma VS_PV s vm p q w : PV s vm p q -> VS s w = VB vm p q w.
+Proof. intros (H1 & H2 & H3 & _). unfold VS. rewrite H1, H2, H3. reflexivity. Qed.
+
+Lemma into_skip_PV wrap nxt vm p q : (forall p' q', PV (wrap p' q') vm p' q') -> PV nxt vm 0 0 ->
+  PV (into_skip wrap nxt p q) vm p q.
+Proof.
+  intros Hw Hn. destruct (into_skip_cases wrap nxt p q) as [(-> & -> & E)|(_ & E)]; rewrite E; [exact Hn|apply Hw].
+Qed.
+
+Lemma header_skip_PV p q : PV (header_skip_to p q) (rvm Header) p q.
+Proof. apply into_skip_PV; [intros; repeat split|repeat split]. Qed.
+Lemma params_skip_PV i p q : PV (params_skip_to i p q) (rvm (Params i 0 0)) p q.
+Proof. apply into_skip_PV; [intros; repeat split|repeat split]. Qed.
+Lemma done_skip_PV r p q : PV (into_skip (DoneSkip r) (Done r) p q) (rvm (Done r)) p q.
+Proof. apply into_skip_PV; [intros; repeat split|repeat split]. Qed.
+
+(* the postcondition of one sub-state drive: the walk is conserved; the mode leaves "between requests" only for
+   "request in progress"; a drive that stops without finishing leaves a walk that is complete only between requests *)
+Definition keep (s : state) (d : bytes) (s' : state) (r : bytes) : Prop :=
+  forall u, VS s (d ++ u) = true -> VS s' (r ++ u) = true /\ (rvm s' = MI -> rvm s = MI).
+
+Definition v_law (s : state) (d : bytes) (res : flow * bytes) : Prop :=
+  bytes_ok d ->
+  match res with
+  | (PANIC _, _) => True
+  | (Break r s', _) => (is_fatal s' = false -> keep s d s' r) /\ (is_final s' = false -> VS s' r = true -> rvm s' = MI)
+  | (Continue r s', _) => is_fatal s' = false -> keep s d s' r
+  end.
+
+Lemma keep_pre s d s0 d0 s' r : (forall u, VS s (d ++ u) = VS s0 (d0 ++ u)) -> rvm s = rvm s0 ->
+  keep s0 d0 s' r -> keep s d s' r.
+Proof. intros HV Hm H u Hu. rewrite HV in Hu. rewrite Hm. apply H, Hu. Qed.
+
+Lemma v_law_pre s d s0 d0 res : (forall u, VS s (d ++ u) = VS s0 (d0 ++ u)) -> rvm s = rvm s0 -> (bytes_ok d -> bytes_ok d0) ->
+  v_law s0 d0 res -> v_law s d res.
+Proof.
+  intros HV Hm Hb H Hd. specialize (H (Hb Hd)). destruct res as [[r s'|r s'|n] o]; [| |exact I].
+  - destruct H as [H1 H2]. split; [|exact H2]. intros Hf. apply (keep_pre _ _ _ _ _ _ HV Hm (H1 Hf)).
+  - intros Hf. apply (keep_pre _ _ _ _ _ _ HV Hm (H Hf)).
+Qed.
+
+Lemma skip_vlaw wrap nxt vm p q d s : (forall p' q', PV (wrap p' q') vm p' q') -> PV nxt vm 0 0 -> PV s vm p q ->
+  v_law s d (skip_drive wrap nxt p q d, []).
+Proof.
+  intros Hw Hn Hs _. unfold skip_drive. cbv zeta.
+  assert (Em : forall s2 p2 q2, PV s2 vm p2 q2 -> rvm s2 = MI -> rvm s = MI).
+  { intros s2 p2 q2 (E2 & _) H. destruct Hs as (E1 & _). congruence. }
+  destruct (N.ltb_spec (len d) p) as [H1|H1]; [|destruct (N.ltb_spec (len d) (p + q)) as [H2|H2]].
+  - split.
+    + intros _ u Hu. split; [|apply (Em _ _ _ (Hw (p - len d) q))].
+      rewrite (VS_PV s vm p q _ Hs) in Hu. rewrite (VS_PV _ _ _ _ _ (Hw (p - len d) q)). cbn [app].
+      rewrite (VB_adv vm p q (d ++ u) (len d)) in Hu by (rewrite ?len_app; lia).
+      rewrite drop_len_app in Hu. exact Hu.
+    + intros _ Hv. rewrite (VS_PV _ _ _ _ _ (Hw (p - len d) q)), VB_mid_false in Hv by (rewrite len_nil; lia). discriminate Hv.
+  - split.
+    + intros _ u Hu. split; [|apply (Em _ _ _ (Hw 0 (q - (len d - p))))].
+      rewrite (VS_PV s vm p q _ Hs) in Hu. rewrite (VS_PV _ _ _ _ _ (Hw 0 (q - (len d - p)))). cbn [app].
+      rewrite VB_through in Hu by (rewrite len_app; lia).
+      rewrite (VB_pad_adv vm q _ (len d - p)) in Hu by (rewrite ?len_drop, ?len_app; lia).
+      rewrite drop_drop in Hu. replace (p + (len d - p)) with (len d) in Hu by lia. rewrite drop_len_app in Hu. exact Hu.
+    + intros _ Hv. rewrite (VS_PV _ _ _ _ _ (Hw 0 (q - (len d - p)))), VB_mid_false in Hv by (rewrite len_nil; lia). discriminate Hv.
+  - intros _ u Hu. split; [|apply (Em _ _ _ Hn)].
+    rewrite (VS_PV s vm p q _ Hs) in Hu. rewrite (VS_PV nxt vm 0 0 _ Hn).
+    rewrite VB_skip in Hu by (rewrite len_app; lia). rewrite drop_app_le in Hu by lia. exact Hu.
+Qed.
+
+(* the padding stage of a GetValues sub-state *)
+Lemma finish_vlaw (wrap : N -> N -> N -> state) nxt vm q vars x o :
+  (forall v p' q', PV (wrap v p' q') vm p' q') -> PV nxt vm 0 0 ->
+  match values_finish wrap nxt q vars x o with
+  | (Break r s', _) => is_final s' = false /\ (forall u, VB vm 0 q (x ++ u) = VS s' (r ++ u)) /\ rvm s' = vm /\ VS s' r = false
+  | (Continue r s', _) => is_fatal s' = false /\ (forall u, VB vm 0 q (x ++ u) = VS s' (r ++ u)) /\ rvm s' = vm
+  | _ => True
+  end.
+Proof.
+  intros Hw Hn. unfold values_finish. destruct (N.ltb_spec (len x) q) as [H|H].
+  - pose proof (Hw vars 0 (q - len x)) as P. destruct P as (W1 & W2 & W3 & W4).
+    assert (Hfin : is_final (wrap vars 0 (q - len x)) = false).
+    { destruct (wrap vars 0 (q - len x)); try reflexivity; [|discriminate W4]. cbn [spad] in W3. lia. }
+    split; [exact Hfin|]. unfold VS. rewrite W1, W2, W3. split; [|split; [reflexivity|]].
+    + intros u. cbn [app]. rewrite (VB_pad_adv vm q (x ++ u) (len x)) by (rewrite ?len_app; lia).
+      rewrite drop_len_app. reflexivity.
+    + apply VB_mid_false. rewrite len_nil. lia.
+  - split; [apply Hn|]. split; [|apply Hn].
+    intros u. rewrite (VS_PV nxt vm 0 0 _ Hn).
+    rewrite (VB_pad_adv vm q (x ++ u) q) by (rewrite ?len_app; lia).
+    rewrite N.sub_diag, drop_app_le by lia. reflexivity.
+Qed.
+
+Lemma values_vlaw (wrap : N -> N -> N -> state) nxt vm vars p q d s :
+  (forall v p' q', PV (wrap v p' q') vm p' q') -> PV nxt vm 0 0 -> PV s vm p q ->
+  v_law s d (values_drive maxc wrap nxt vars p q d).
+Proof.
+  intros Hw Hn Hs _. rewrite values_drive_eq.
+  assert (HVS : forall w, VS s w = VB vm p q w) by (intros w; apply (VS_PV _ _ _ _ _ Hs)).
+  assert (Hm : rvm s = vm) by apply Hs.
+  destruct (N.ltb_spec 0 p) as [Hp|Hp].
+  - destruct (nv_run (take (N.min (len d) p) d)) as [ps rest] eqn:En.
+    pose proof (nv_run_rest_len (take (N.min (len d) p) d)) as Hr. rewrite En in Hr. cbn [snd] in Hr. rewrite len_take in Hr.
+    destruct (N.ltb_spec (len d) p) as [H1|H1].
+    + set (c := N.min (len d) p - len rest). assert (Hc : c <= len d /\ c < p) by (unfold c; lia).
+      destruct (Hw (vars_of_pairs vars ps) (p - c) q) as (W1 & W2 & W3 & W4).
+      split.
+      * intros _ u Hu. split; [|rewrite W1, Hm; exact (fun x => x)]. rewrite HVS in Hu.
+        unfold VS. rewrite W1, W2, W3.
+        rewrite (VB_adv vm p q (d ++ u) c) in Hu by (rewrite ?len_app; lia).
+        rewrite drop_app_le in Hu by lia. exact Hu.
+      * intros _ Hv. unfold VS in Hv. rewrite W1, W2, W3, VB_mid_false in Hv by (rewrite len_drop; lia). discriminate Hv.
+    + pose proof (finish_vlaw wrap nxt vm q (vars_of_pairs vars ps) (drop p d) (write_response (vars_of_pairs vars ps) maxc) Hw Hn) as F.
+      assert (PRE : forall u, VS s (d ++ u) = VB vm 0 q (drop p d ++ u)).
+      { intros u. rewrite HVS, VB_through by (rewrite len_app; lia). rewrite drop_app_le by lia. reflexivity. }
+      destruct (values_finish wrap nxt q (vars_of_pairs vars ps) (drop p d) (write_response (vars_of_pairs vars ps) maxc))
+        as [[r s'|r s'|n] o']; [| |exact I].
+      * destruct F as (F0 & F1 & F2 & F3). split; [|intros _ Hv; rewrite F3 in Hv; discriminate Hv].
+        intros _ u Hu. rewrite PRE, F1 in Hu. split; [exact Hu|rewrite F2, Hm; exact (fun x => x)].
+      * destruct F as (F0 & F1 & F2). intros _ u Hu. rewrite PRE, F1 in Hu. split; [exact Hu|rewrite F2, Hm; exact (fun x => x)].
+  - assert (Hp0 : p = 0) by lia. rewrite Hp0 in HVS.
+    pose proof (finish_vlaw wrap nxt vm q vars d [] Hw Hn) as F.
+    destruct (values_finish wrap nxt q vars d []) as [[r s'|r s'|n] o']; [| |exact I].
+    + destruct F as (F0 & F1 & F2 & F3). split; [|intros _ Hv; rewrite F3 in Hv; discriminate Hv].
+      intros _ u Hu. rewrite HVS, F1 in Hu. split; [exact Hu|rewrite F2, Hm; exact (fun x => x)].
+    + destruct F as (F0 & F1 & F2). intros _ u Hu. rewrite HVS, F1 in Hu. split; [exact Hu|rewrite F2, Hm; exact (fun x => x)].
+Qed.
+
+(* the header of a record: what try_head returns, in terms of the walk *)
+Lemma try_head_vlaw self (skip : N -> N -> state) vm d : (forall p q, PV (skip p q) vm p q) ->
+  match try_head self skip d with
+  | HeadOk t id cl pl => HEADER_LEN <= len d /\
+      forall u, VB vm 0 0 (d ++ u) =
+                match vstep vm t id cl (drop 8 d ++ u) with Some vm' => VB vm' cl pl (drop 8 d ++ u) | None => false end
+  | HeadRet (Break r s') _ => r = d /\ ((s' = self /\ len d < HEADER_LEN) \/ is_fatal s' = true)
+  | HeadRet (Continue r s') _ => is_fatal s' = false /\ rvm s' = vm /\ forall u, VB vm 0 0 (d ++ u) = VS s' (r ++ u)
+  | HeadRet (PANIC _) _ => True
+  end.
+Proof.
+  intros Hsk. destruct (N.ltb_spec (len d) 8) as [Hl|Hl].
+  - rewrite try_head_short by exact Hl. split; [reflexivity|]. left. split; [reflexivity|exact Hl].
+  - rewrite try_head_long by exact Hl.
+    assert (HW : forall u, VB vm 0 0 (d ++ u) = vb_hd vm (take 8 d) (drop 8 d ++ u)) by (intros u; apply VB_head_app; exact Hl).
+    unfold vb_hd in HW. destruct (hdr_decode (take 8 d)) as [t id cl pl|v|t] eqn:E.
+    + split; [exact Hl|exact HW].
+    + split; [reflexivity|]. right. reflexivity.
+    + pose proof (Hsk (be16 (nthN (take 8 d) 4) (nthN (take 8 d) 5)) (nthN (take 8 d) 6)) as Hp.
+      split; [apply Hp|]. split; [apply Hp|]. intros u. rewrite HW, (VS_PV _ _ _ _ _ Hp). reflexivity.
+Qed.
+
+Lemma VS_short s d : sprem s = 0 -> spad s = 0 -> len d < HEADER_LEN -> VS s d = true -> vm_final (rvm s) = true.
+Proof.
+  intros Hp Hq Hl H. unfold VS in H. rewrite Hp, Hq, VB_short in H by exact Hl. apply andb_true_iff in H. apply H.
+Qed.
+
+Lemma header_vlaw d : v_law Header d (header_drive d).
+Proof.
+  intros Hb. rewrite header_drive_eq.
+  pose proof (try_head_vlaw Header header_skip_to (rvm Header) d header_skip_PV) as TH.
+  assert (TRIV : keep Header d Header d) by (intros u Hu; split; [exact Hu|exact (fun x => x)]).
+  assert (STOP : len d < HEADER_LEN -> VS Header d = true -> rvm Header = MI).
+  { intros Hl Hv. pose proof (VS_short Header d eq_refl eq_refl Hl Hv) as H. cbn [rvm] in *. destruct g; [discriminate H|reflexivity]. }
+  destruct (try_head Header header_skip_to d) as [t id cl pl|f o].
+  - destruct TH as (Hl & HW). unfold header_body.
+    destruct (N.eqb_spec t RT_BeginRequest) as [Et|Et].
+    + subst t.
+      destruct (N.eqb_spec BeginRequest_LEN cl) as [Ecl|Ecl]; cbn [negb]; [|split; intros H; discriminate H].
+      subst cl. destruct (N.ltb_spec (len d) 16) as [H16|H16].
+      * split; [intros _; exact TRIV|]. intros _ Hv. exfalso. unfold VS in Hv. cbn [sprem spad] in Hv.
+        specialize (HW []). rewrite !app_nil_r in HW. rewrite HW in Hv. unfold vstep in Hv.
+        change (RT_BeginRequest =? RT_AbortRequest) with false in Hv. rewrite N.eqb_refl in Hv.
+        destruct (rvm Header); try discriminate Hv.
+        rewrite len_drop in Hv. destruct (N.leb_spec 8 (len d - 8)) as [Hc|_]; [lia|].
+        rewrite andb_false_r in Hv. discriminate Hv.
+      * assert (BODY : forall u, take 8 (drop 8 d ++ u) = slice 8 16 d).
+        { intros u. unfold slice. rewrite take_app_le by (rewrite len_drop; lia). reflexivity. }
+        assert (ADV : forall vm' u, VB vm' BeginRequest_LEN pl (drop 8 d ++ u) = VB vm' 0 pl (drop 16 d ++ u)).
+        { intros vm' u. rewrite VB_through by (rewrite len_app, len_drop; unfold BeginRequest_LEN; lia).
+          rewrite drop_app_le by (rewrite len_drop; unfold BeginRequest_LEN; lia). rewrite drop_drop. reflexivity. }
+        assert (HW' : forall u, VS Header (d ++ u) = true ->
+                  rvm Header = MB /\ exists role fl, begin_decode (slice 8 16 d) = (role, Some (role, fl)) /\ (id =? 0) = false /\
+                  VB (MP id role) 0 pl (drop 16 d ++ u) = true).
+        { intros u Hu. unfold VS in Hu. cbn [sprem spad] in Hu. rewrite HW in Hu. unfold vstep in Hu.
+          change (RT_BeginRequest =? RT_AbortRequest) with false in Hu. rewrite N.eqb_refl in Hu.
+          destruct (rvm Header); try discriminate Hu. split; [reflexivity|].
+          destruct ((BeginRequest_LEN =? 8) && (8 <=? len (drop 8 d ++ u))); [|discriminate Hu].
+          rewrite BODY in Hu. unfold begin_decode in *.
+          destruct (known_role (be16 (nthN (slice 8 16 d) 0) (nthN (slice 8 16 d) 1))); [|discriminate Hu].
+          destruct (id =? 0); [discriminate Hu|]. rewrite ADV in Hu. eexists _, _. split; [reflexivity|]. split; [reflexivity|exact Hu]. }
+        destruct (begin_decode (slice 8 16 d)) as [role [[role' flags]|]] eqn:Ebd.
+        -- destruct (id =? 0) eqn:Eid; [split; intros H; discriminate H|].
+           intros _ u Hu. destruct (HW' u Hu) as (Hm & role2 & fl2 & E2 & _ & Hv). injection E2 as <- <- <-.
+           split; [exact Hv|]. cbn [rvm ireq r_id r_role]. discriminate.
+        -- intros _ u Hu. destruct (HW' u Hu) as (_ & role2 & fl2 & E2 & _). discriminate E2.
+    + assert (GEN : forall s', PV s' (rvm Header) cl pl -> keep Header d s' (drop 8 d)).
+      { intros s' P u Hu. unfold VS in Hu. cbn [sprem spad] in Hu. rewrite HW in Hu.
+        destruct P as (P1 & P2 & P3 & _). unfold VS. rewrite P1, P2, P3. split; [|exact (fun x => x)].
+        unfold vstep in Hu. destruct (t =? RT_AbortRequest); [discriminate Hu|].
+        destruct (N.eqb_spec t RT_BeginRequest) as [|_]; [contradiction|].
+        cbn [rvm] in *. destruct g; exact Hu. }
+      destruct ((t =? RT_GetValues) && hdr_is_management t id).
+      * intros _. apply GEN. repeat split.
+      * intros _. apply GEN. apply header_skip_PV.
+  - destruct f as [r s'|r s'|n]; [| |exact I].
+    + destruct TH as (-> & [[-> Hl]|Hf]).
+      * split; [intros _; exact TRIV|]. intros _. apply STOP. exact Hl.
+      * split; intros H; [rewrite Hf in H; discriminate H|]. destruct s'; try discriminate Hf. discriminate H.
+    + destruct TH as (Hnf & Hm & HW). intros _ u Hu. unfold VS in Hu at 1. cbn [sprem spad] in Hu. rewrite HW in Hu.
+      split; [exact Hu|rewrite Hm; exact (fun x => x)].
+Qed.
+
+Lemma done_mode_not_MI id role : done_mode id role <> MI.
+Proof. unfold done_mode. destruct (role_input_streams role); discriminate. Qed.
+
+Lemma sh_vfacts i t id cl pl rest :
+  match vstep (rvm (Params i 0 0)) t id cl rest with
+  | Some vm' => PV (sh_state i t id cl pl) vm' cl pl /\ vm' <> MI
+  | None => True
+  end.
+Proof.
+  cbn [rvm]. unfold vstep, sh_state. cbv zeta.
+  destruct (N.eqb_spec t RT_AbortRequest) as [Ea|Ea]; [exact I|].
+  destruct (N.eqb_spec t RT_BeginRequest) as [Eb|Eb]; [exact I|].
+  destruct ((t =? RT_Params) && (id =? r_id (ireq i))) eqn:E1; cbn [andb].
+  { destruct (N.eqb_spec cl 0) as [->|Hc].
+    - split; [apply (done_skip_PV (ireq i) 0 pl)|apply done_mode_not_MI].
+    - split; [repeat split|discriminate]. }
+  destruct (N.eqb_spec t RT_AbortRequest) as [|_]; [contradiction|]. cbn [andb].
+  destruct (N.eqb_spec t RT_BeginRequest) as [|_]; [contradiction|]. cbn [andb].
+  destruct ((t =? RT_GetValues) && hdr_is_management t id).
+  - split; [repeat split|discriminate].
+  - split; [apply (params_skip_PV i cl pl)|discriminate].
+Qed.
+
+Lemma stage_head_vlaw i d : v_law (Params i 0 0) d (stage_head i d).
+Proof.
+  intros Hb. unfold stage_head.
+  pose proof (try_head_vlaw (Params i 0 0) (params_skip_to i) (rvm (Params i 0 0)) d (params_skip_PV i)) as TH.
+  destruct (try_head (Params i 0 0) (params_skip_to i) d) as [t id cl pl|f o].
+  - destruct TH as (Hl & HW). intros _ u Hu. unfold VS in Hu. cbn [sprem spad] in Hu. rewrite HW in Hu.
+    pose proof (sh_vfacts i t id cl pl (drop 8 d ++ u)) as F.
+    destruct (vstep (rvm (Params i 0 0)) t id cl (drop 8 d ++ u)) as [vm'|]; [|discriminate Hu].
+    destruct F as [P Hn]. rewrite (VS_PV _ _ _ _ _ P). split; [exact Hu|]. destruct P as (P1 & _). rewrite P1. intros H. contradiction.
+  - destruct f as [r s'|r s'|n]; [| |exact I].
+    + destruct TH as (-> & [[-> Hl]|Hf]).
+      * split; [intros _ u Hu; split; [exact Hu|exact (fun x => x)]|].
+        intros _ Hv. pose proof (VS_short (Params i 0 0) d eq_refl eq_refl Hl Hv) as H. discriminate H.
+      * split; intros H; [rewrite Hf in H; discriminate H|]. destruct s'; try discriminate Hf. discriminate H.
+    + destruct TH as (Hnf & Hm & HW). intros _ u Hu. unfold VS in Hu at 1. cbn [sprem spad] in Hu. rewrite HW in Hu.
+      split; [exact Hu|rewrite Hm; exact (fun x => x)].
+Qed.
+
+Lemma stage_pad_vlaw i q d : v_law (Params i 0 q) d (stage_pad i q d).
+Proof.
+  unfold stage_pad. destruct (N.ltb_spec 0 q) as [Hq|Hq].
+  - destruct (N.leb_spec (len d) q) as [Hl|Hl].
+    + intros _. split.
+      * intros _ u Hu. split; [|exact (fun x => x)]. unfold VS in *. cbn [rvm sprem spad app] in *.
+        rewrite (VB_pad_adv _ q (d ++ u) (len d)) in Hu by (rewrite ?len_app; lia). rewrite drop_len_app in Hu. exact Hu.
+      * intros _ Hv. unfold VS in Hv. cbn [rvm sprem spad] in Hv. rewrite VB_nil in Hv. cbn [vm_final] in Hv.
+        rewrite andb_false_r in Hv. discriminate Hv.
+    + apply (v_law_pre _ _ (Params i 0 0) (drop q d)); [|reflexivity|apply bytes_ok_drop|apply stage_head_vlaw].
+      intros u. unfold VS. cbn [rvm sprem spad]. rewrite (VB_pad_adv _ q (d ++ u) q) by (rewrite ?len_app; lia).
+      rewrite N.sub_diag, drop_app_le by lia. reflexivity.
+  - assert (q = 0) by lia. subst q. apply stage_head_vlaw.
+Qed.
+
+Lemma ps_ids i x e i' c : inner_ok i -> bytes_ok x -> len x < SIZE_LIMIT -> parse_stream norm i x e = Some (i', c) ->
+  r_id (ireq i') = r_id (ireq i) /\ r_role (ireq i') = r_role (ireq i).
+Proof.
+  intros Hi Hx Hl E.
+  assert (Hsz : len (ibuf i ++ x) <= USIZE_MAX).
+  { pose proof (buf_ok_len _ Hi). rewrite len_app. unfold SIZE_LIMIT, USIZE_MAX in *. lia. }
+  destruct (F_S1 norm i x e Hi Hx Hsz) as (i2 & c2 & E2 & _ & _ & _ & A & B & _). rewrite E in E2. injection E2 as <- <-.
+  split; assumption.
+Qed.
+
+Lemma params_vlaw i p q d : inner_ok i -> len d < SIZE_LIMIT -> v_law (Params i p q) d (params_drive norm i p q d).
+Proof.
+  intros Hi Hsz. rewrite ReqDrive.params_drive_eq. destruct (N.ltb_spec 0 p) as [Hp|Hp].
+  - destruct (N.ltb_spec (len d) p) as [H1|H1].
+    + destruct (parse_stream norm i d false) as [[i' c]|] eqn:EP; [|intros _; exact I].
+      destruct (N.ltb_spec p c) as [|Hc1]; [intros _; exact I|]. destruct (N.ltb_spec (len d) c) as [|Hc2]; [intros _; exact I|].
+      intros Hb. destruct (ps_ids i d false i' c Hi Hb Hsz EP) as [I1 I2]. split.
+      * intros _ u Hu. unfold VS in *. cbn [rvm sprem spad] in *. rewrite I1, I2. split; [|discriminate].
+        rewrite (VB_adv _ p q (d ++ u) c) in Hu by (rewrite ?len_app; lia). rewrite drop_app_le in Hu by lia. exact Hu.
+      * intros _ Hv. unfold VS in Hv. cbn [sprem spad] in Hv. rewrite VB_mid_false in Hv by (rewrite len_drop; lia). discriminate Hv.
+    + destruct (parse_stream norm i (take p d) true) as [[i' c]|] eqn:EP; [|intros _; exact I].
+      destruct (negb (c =? p)); [intros _; exact I|].
+      intros Hb. destruct (ps_ids i (take p d) true i' c Hi (bytes_ok_take p d Hb) ltac:(rewrite len_take; lia) EP) as [I1 I2].
+      revert Hb. apply (v_law_pre _ _ (Params i' 0 q) (drop p d)); [| |apply bytes_ok_drop|apply stage_pad_vlaw].
+      * intros u. unfold VS. cbn [rvm sprem spad]. rewrite I1, I2. rewrite VB_through by (rewrite len_app; lia).
+        rewrite drop_app_le by lia. reflexivity.
+      * cbn [rvm]. rewrite I1, I2. reflexivity.
+  - assert (p = 0) by lia. subst p. apply stage_pad_vlaw.
+Qed.
+
+Lemma drive1_vlaw s d : state_ok s -> len d < SIZE_LIMIT -> v_law s d (drive1 norm maxc s d).
+Proof.
+  intros Hs Hsz. destruct s as [|p q|vars p q|i p q|i p q|i vars p q|r p q|r|e]; cbn [drive1].
+  - apply header_vlaw.
+  - apply (skip_vlaw HeaderSkip Header (rvm Header)); [intros; repeat split|repeat split|repeat split].
+  - apply (values_vlaw HeaderValues Header (rvm Header)); [intros; repeat split|repeat split|repeat split].
+  - apply params_vlaw; [apply Hs|exact Hsz].
+  - apply (skip_vlaw (ParamsSkip i) (Params i 0 0) (rvm (Params i 0 0))); [intros; repeat split|repeat split|repeat split].
+  - apply (values_vlaw (ParamsValues i) (Params i 0 0) (rvm (Params i 0 0))); [intros; repeat split|repeat split|repeat split].
+  - apply (skip_vlaw (DoneSkip r) (Done r) (rvm (Done r))); [intros; repeat split|repeat split|repeat split].
+  - intros _. split; [|intros H; discriminate H]. intros _ u Hu. split; [exact Hu|exact (fun x => x)].
+  - intros _. split; intros H; discriminate H.
+Qed.
+
+Lemma keep_trans s d s1 r1 s2 r2 : keep s d s1 r1 -> keep s1 r1 s2 r2 -> keep s d s2 r2.
+Proof. intros H1 H2 u Hu. destruct (H1 u Hu) as [A B]. destruct (H2 u A) as [C D]. split; [exact C|]. intros H. apply B, D, H. Qed.
+
+(* a drive that has consumed everything and is not finished: the walk from there over nothing is complete only between requests *)
+Lemma stop_nil s : sgood s -> is_final s = false -> VS s [] = true -> rvm s = MI.
+Proof.
+  intros [_ H00] Hf Hv. unfold VS in Hv. rewrite VB_nil in Hv.
+  apply andb_true_iff in Hv. destruct Hv as [Hv Hfin]. apply andb_true_iff in Hv. destruct Hv as [Hp Hq].
+  apply N.eqb_eq in Hp. apply N.eqb_eq in Hq.
+  destruct s as [|p q|vars p q|i p q|i p q|i vars p q|r p q|r|e]; cbn [rvm sprem spad no00 vm_final] in *;
+    try discriminate Hfin; try discriminate Hf; try lia; destruct g; try discriminate Hfin; reflexivity.
+Qed.
+
+Lemma drive_vlaw : forall f s d out r s' o, state_ok s -> bytes_ok d -> len d < SIZE_LIMIT ->
+  drive norm maxc f s d out = DOk r s' o -> is_fatal s' = false ->
+  keep s d s' r /\ (is_final s' = false -> VS s' r = true -> rvm s' = MI).
+Proof.
+  induction f as [|f IH]; intros s d out r s' o Hs Hok Hsz E Hnf; [discriminate E|].
+  rewrite drive_S in E. pose proof (drive1_post norm maxc (F_S1 norm) s d Hs Hok Hsz) as P.
+  pose proof (drive1_vlaw s d Hs Hsz Hok) as L.
+  destruct (drive1 norm maxc s d) as [[r0 s0|r0 s0|n] o0]; cbn [step_post] in P.
+  - injection E as <- <- <-. destruct L as [L1 L2]. split; [apply L1, Hnf|exact L2].
+  - destruct P as (P1 & P2 & P3 & P4).
+    assert (Hnf0 : is_fatal s0 = false).
+    { destruct s0; try reflexivity. exfalso. destruct r0 as [|b r0']; [injection E as _ <- _; discriminate Hnf|].
+      destruct f as [|f']; [discriminate E|]. cbn [drive is_final] in E. injection E as _ <- _. discriminate Hnf. }
+    specialize (L Hnf0). destruct r0 as [|b r0'].
+    + injection E as <- <- <-. split; [exact L|]. intros Hfin Hv. apply (stop_nil _ P1 Hfin Hv).
+    + destruct (IH s0 (b :: r0') (out ++ o0) r s' o (proj1 P1) (suffix_ok _ _ P3 Hok)
+                  ltac:(pose proof (suffix_len _ _ P3); lia) E Hnf) as (K1 & S1).
+      split; [apply (keep_trans _ _ _ _ _ _ L K1)|exact S1].
+  - contradiction.
+Qed.
+
+(* Parser::parse conserves the structure walk; a call that is not done leaves a walk that is complete over the bytes
+   it holds only between requests *)
+Theorem parse_vlaw p new p' dn out : parser_ok p -> bytes_ok new -> len new <= input_space p ->
+  parse norm maxc p new = POk p' dn out -> is_fatal (st p') = false ->
+  (forall u, VS (st p) (held p ++ new ++ u) = true ->
+             VS (st p') (held p' ++ u) = true /\ (rvm (st p') = MI -> rvm (st p) = MI)) /\
+  (dn = false -> VS (st p') (held p') = true -> rvm (st p') = MI).
+Proof.
+  intros Hp Hn Hsp E Hnf.
+  destruct (parse_spec norm maxc (F_S1 norm) p new Hp Hn Hsp) as (rest & s' & o' & Ed & G1 & G2 & G3 & G4 & G5 & _ & Hparse).
+  rewrite E in Hparse. destruct Hp as (Hs & _ & Hh & Hl & Hc). unfold input_space in Hsp.
+  destruct (negb (is_final s') && (len rest =? cap p)); injection Hparse as -> -> ->; [discriminate Hnf|].
+  cbn [st held] in *. unfold drive_all in Ed.
+  apply drive_vlaw in Ed; [|exact Hs|apply bytes_ok_app; split; assumption|rewrite len_app; lia|exact Hnf].
+  destruct Ed as (K & S). split; [intros u Hu; apply K; rewrite <- app_assoc; exact Hu|].
+  intros Hd. apply S. exact Hd.
+Qed.
+End WalkRequest3.
